@@ -71,8 +71,53 @@ func vhSymbolicRequest(route int, emptyHeaderValues bool) greq.Req {
 		if k := symxChoice("factor", len(factors)+1); k < len(factors) {
 			r.Query = append(r.Query, greq.KV{Key: "factor", Value: factors[k]})
 		}
+	case 9:
+		// ten query parameters of further types: one of them gets a candidate text (around the edges of its width,
+		// malformed, empty or absent), the others a plain valid value
+		ints := []string{"0", "-1", "127", "128", "255", "256", "-129", "32767", "32768", "-32769", "65535", "65536", "2147483647", "2147483648", "-2147483649",
+			"4294967295", "4294967296", "18446744073709551615", "18446744073709551616", "abc", "", "1.0", "+5", "0x10", " 7", "1_0"}
+		bools := []string{"true", "false", "1", "0", "T", "yes", "", "TRUE", "tRuE"}
+		colors := []string{"red", "blue", "green", "", "RED"}
+		which := symxChoice("which", 10)
+		for k := 0; k < 10; k++ {
+			key := "p" + string(rune('0'+k))
+			if k != which {
+				switch k {
+				case 6, 8: // pointers: absent
+				case 9:
+					r.Query = append(r.Query, greq.KV{Key: key, Value: "x"})
+				default:
+					r.Query = append(r.Query, greq.KV{Key: key, Value: "1"})
+				}
+				continue
+			}
+			var cands []string
+			switch k {
+			case 6:
+				cands = bools
+			case 8:
+				cands = colors
+			case 9:
+				cands = []string{"x", "", "é"}
+			default:
+				cands = ints
+			}
+			c := symxChoice("value", len(cands)+1)
+			if c == len(cands) {
+				continue // absent
+			}
+			r.Query = append(r.Query, greq.KV{Key: key, Value: cands[c]})
+			if k == 7 && symxBool("second") {
+				r.Query = append(r.Query, greq.KV{Key: key, Value: "-3"})
+			}
+		}
 	}
 	return r
+}
+
+func vhPtrEq[T comparable](x *T, b any) bool {
+	y, ok := b.(*T)
+	return ok && (x == nil) == (y == nil) && (x == nil || *x == *y)
 }
 
 func vhSameArg(a, b any) bool {
@@ -107,6 +152,42 @@ func vhSameArg(a, b any) bool {
 	case *int8:
 		y, ok := b.(*int8)
 		return ok && (x == nil) == (y == nil) && (x == nil || *x == *y)
+	case int16:
+		y, ok := b.(int16)
+		return ok && x == y
+	case int32:
+		y, ok := b.(int32)
+		return ok && x == y
+	case uint8:
+		y, ok := b.(uint8)
+		return ok && x == y
+	case uint16:
+		y, ok := b.(uint16)
+		return ok && x == y
+	case uint32:
+		y, ok := b.(uint32)
+		return ok && x == y
+	case uint64:
+		y, ok := b.(uint64)
+		return ok && x == y
+	case api.ID:
+		y, ok := b.(api.ID)
+		return ok && x == y
+	case *bool:
+		return vhPtrEq(x, b)
+	case *api.Color:
+		return vhPtrEq(x, b)
+	case []int:
+		y, ok := b.([]int)
+		if !ok || len(x) != len(y) {
+			return false
+		}
+		for i := range x {
+			if x[i] != y[i] {
+				return false
+			}
+		}
+		return true
 	case float32:
 		y, ok := b.(float32)
 		return ok && math.Float32bits(x) == math.Float32bits(y)
@@ -246,6 +327,7 @@ func vh_C12_ping_Q()    { vhC12(5, false) }
 func vh_C12_remove_Q()  { vhC12(6, false) }
 func vh_C12_put_Q()     { vhC12(7, false) }
 func vh_C12_scale_Q()   { vhC12(8, false) }
+func vh_C12_wide_Q()    { vhC12(9, false) }
 
 // header values may be empty: presence of an empty-valued header
 func vh_C12_empty_header_Q() { vhC12(0, true) }
